@@ -325,5 +325,13 @@ _here = _os.path.dirname(_os.path.abspath(__file__))
 OK_IDS = set(l.strip() for l in open(_os.path.join(_here, 'builtin_cases_ok.txt')) if l.strip() and not l.startswith('#'))
 SLOW = [c for c in CASES if c['id'] not in OK_IDS]        # reported under not_decided (cost), never counted
 FAST = [c for c in CASES if c['id'] in OK_IDS]
+# The explicit builtin closures are verified by Verus (contracts/97_builtins.vc, unbounded).  The quick tier therefore
+# keeps only what Verus cannot reach: the macro-generated arms (routing of simple_math!/int_function!/float_is) and
+# one case per explicit builtin that corroborates the name -> closure dispatch.  The thorough tier runs every case.
+QUICK_IDS = {'math_ln_f', 'math_sqrt_i', 'floor_i', 'ceil_f', 'math_is_nan_f', 'math_is_finite_f', 'math_pow_tfie', 'math_pow_tife', 'math_atan2_tfie', 'math_log_tife',
+             'bitand_tiie', 'bitor_tiie', 'bitxor_tiie', 'bitnot_i', 'shl_tiie', 'shr_tiie',
+             'typeof_f', 'math_abs_i', 'min_tiie', 'max_tffe', 'min_tffe', 'math_ln_b'}
+for c in FAST:
+    c['tier'] = 'quick' if c['id'] in QUICK_IDS else 'thorough'
 pack([c for c in FAST if c['tier'] == 'quick'], 'bq', 'quick')
 pack([c for c in FAST if c['tier'] != 'quick'], 'bt', 'thorough')
